@@ -221,4 +221,8 @@ TABLE_RNS_4K = [
      "extern": [{"fcall": "round_q", "binder": "roundQ"}]},
     {"file": UR, "fn": "decrypt_mod_t", "impl": "RNSTool", "model": "RNSTool.decryptModT",
      "extern": [{"rcall": "self.base_q_to_t_conv.as_ref().unwrap().exact_convey_array", "binder": "qToTF"}]},
+    {"file": "src/util/basic.rs", "fn": "set_zero_uint", "model": "List.replicate n 0"},
+    # `return set_zero_uint(x);` (a `return` of a unit call) is read as `set_zero_uint(x); return;`
+    {"file": "src/util/basic.rs", "fn": "multiply_uint_u64", "model": "multiplyUintU64",
+     "pre_text": float_erase([("return set_zero_uint($r);", 1, "set_zero_uint($r); return;")])},
 ]
